@@ -11,7 +11,7 @@ import ast
 
 from ..cfg import known_falsy
 from ..model import self_attr, unparse, walk_body_shallow
-from .util import (reaching_defs, call_name, call_recv, calls_in, guarded_reach, need, node_assign_value, node_writes_attr, norm,
+from .util import (decision_table, resolved_facts, reaching_defs, call_name, call_recv, calls_in, guarded_reach, need, node_assign_value, node_writes_attr, norm,
                    registrations, where, aliases_of)
 
 TECHNIQUE = "registration-order check, paired-update dominance, guarded call-graph reachability from stop(), " \
@@ -75,12 +75,20 @@ def run(ctx):
             where(sb, sb.node), "threshold met while a batch is in flight never takes effect", facts=["%s:%s" % x for x in names])
     # threshold test itself: either condition dispatches
     cc = ctx.cfg(chk)
-    tests = [n for n in cc.nodes if n.kind == "test"]
-    txt = norm(tests[0].stmt.test) if tests else ""
-    ok = (len(tests) == 1 and " or " in txt and "self.batch_every_n <= self._waitingMsgCount" in txt
-          and "self.batch_every_b <= self._waitingByteCount" in txt)
     disp = [n for n in cc.nodes if any(call_name(c) == sb.name for c in n.calls())]
-    r.check(ok and disp and any(lab and lab[0] == "cond" and lab[2] and s == disp[0].id for s, lab in cc.succ[tests[0].id]),
+    # decision table over the four atoms: dispatch happens exactly when (count limit set and met) or (byte limit set and met)
+    names_, table = decision_table(ctx, chk, {
+        "n_set": ["self.batch_every_n"], "n_met": ["self.batch_every_n <= self._waitingMsgCount"],
+        "b_set": ["self.batch_every_b"], "b_met": ["self.batch_every_b <= self._waitingByteCount"]}, [n.id for n in disp])
+    wrong = []
+    for combo, (reachable, avoidable) in sorted(table.items()):
+        v = dict(zip(names_, combo))
+        want = (v["n_set"] and v["n_met"]) or (v["b_set"] and v["b_met"])
+        if (want and (avoidable or not reachable)) or (not want and reachable):
+            wrong.append({k: x for k, x in v.items()})
+    txt = "; ".join("%s -> dispatch %s" % (w, "missing" if (w["n_set"] and w["n_met"]) or (w["b_set"] and w["b_met"]) else "unexpected") for w in wrong[:3])
+    ok = bool(disp) and not wrong
+    r.check(ok,
             "%s#threshold-test" % chk.qname, "dispatch is not triggered by (count threshold met OR byte threshold met): %s" % txt,
             where(chk, chk.node))
     init = ctx.func(PROD + ".__init__")
@@ -289,7 +297,7 @@ def run(ctx):
     r.check(ok, "%s#iterates-copy-and-cancels" % co.qname, "outstanding sends are not all cancelled (iteration over a copy)",
             where(co, co.node), "list mutated during iteration skips every other send")
     for n, recv in cancels:
-        others = sorted(t for t, p in fst[n.id] if recv not in t and "self.stopping" not in t)
+        others = sorted(t for t, p in resolved_facts(fst[n.id]) if recv not in t and "self.stopping" not in t)
         r.check(not others, "%s#cancel(%s)-unconditional" % (stop.qname, recv),
                 "cancel of %s in stop() is subject to unrelated conditions %s" % (recv, others), where(stop, n.stmt))
     lp = [n for n in scfg.nodes if any(call_name(c) == "stop" and call_recv(c) == "self._sendLooper" for c in n.calls())]
